@@ -81,6 +81,8 @@ def forms_for(cn, t):
     F.append(('nested-assign', 'z = y = x;'))
     F.append(('assign-call', 'y = ret_%s();' % t))
     F.append(('cond-discard', 'k ? x : y; (k ? ret_%s() : x);' % t))
+    F.append(('cond-void-arm', 'k ? ret_%s() : (void)0; k ? (void)0 : x; (k - 1) ? (void)0 : ret_%s(); k ? x : ret_void();' % (t, t)))
+    F.append(('comma-in-member-base', '(ret_%s(), s40).a[1]; (x, s40).a[2];' % t))
     F.append(('stmt-expr-discard', '({ x; }); ({ ret_%s(); });' % t))
     F.append(('stmt-expr-used', 'y = ({ z = x; x; });'))
     F.append(('call-many-args', 'many(1, 2, 3, 4, 5, 6, 7, 8, 9.5L, 10.5, ret_S40()); k = many(1, 2, 3, 4, 5, 6, 7, 8, 1.0L, 2.0, s40) > 0;'))
